@@ -6,7 +6,7 @@
    `holders k s` lists the identifiers of kind k with one occurrence per owner (a stored PDR of a live session, a
    meters-map entry, a tunnel-parameter entry, an application-filter entry); `pool k s` is the pool of that kind. *)
 From Coq Require Import NArith List Bool.
-From UPF Require Import Model.Up4Ids Proofs.Up4IdsProofs.
+From UPF Require Import Model.Up4Ids Proofs.Up4IdsProofs Proofs.Up4RefsProofs.
 Import ListNotations.
 Open Scope N_scope.
 
@@ -94,6 +94,33 @@ Theorem C15_fail_rejects : forall c evs i e x,
   existsb failed (o_log x) = true -> o_acc x = false.
 Proof. exact fail_rejects_run. Qed.
 Print Assumptions C15_fail_rejects.
+
+(* ---------------------------------------------------------------------------------------------------------
+   "Never handed out while a live session still uses it", at the level of the users of a tunnel peer: sending the
+   FARs of a session (again) - updateTunnelPeersBasedOnFARs, called by sendCreate and sendUpdate - never drops a
+   user (F-SEID, FAR id) from any tunnel-parameter entry and never changes an entry's id, for every world (pools,
+   map, fault list), whichever of its Writes fail and wherever the loop stops; and it only takes ids out of the
+   pool.  Since removeGTPTunnelPeer frees an id only when its user set becomes empty, a failed re-send of a live
+   session's FAR cannot let another session's departure free the id behind its back (seeded change C15-m5). *)
+Theorem C15_resend_keeps_references : forall sid fars w k id users r,
+  alookup N.eqb k (peers (w_u w)) = Some (id, users) -> In r users ->
+  exists users', alookup N.eqb k (peers (w_u (fst (updateTunnelPeersBasedOnFARs sid fars w)))) = Some (id, users') /\ In r users'.
+Proof. exact update_peers_keeps_refs. Qed.
+Print Assumptions C15_resend_keeps_references.
+
+Theorem C15_resend_frees_nothing : forall sid fars w,
+  incl (peer_pool (w_u (fst (updateTunnelPeersBasedOnFARs sid fars w)))) (peer_pool (w_u w)).
+Proof. exact update_peers_pool_incl. Qed.
+Print Assumptions C15_resend_frees_nothing.
+
+(* non-vacuity: session 7 uses peer 5 under id 2; its FAR is sent again and the MODIFY fails: the reference and the
+   id are still there, the pool is unchanged *)
+Definition resend_u : up4 := Up4 [] [] [] [3; 4] [] [] [(5, (2, [(7, 2)]))] [] [].
+Definition resend_w : world := World resend_u [] [WFail] [] false.
+Definition resend_out : world * res unit := updateTunnelPeersBasedOnFARs 7 [Far 2 true true 5] resend_w.
+Example C15_resend_inhabited :
+  (snd resend_out = Err) /\ (peers (w_u (fst resend_out)) = [(5, (2, [(7, 2)]))]) /\ (peer_pool (w_u (fst resend_out)) = [3; 4]).
+Proof. vm_compute. repeat split. Qed.
 
 (* ---------------------------------------------------------------------------------------------------------
    Non-vacuity: the guard of C15_counters_partial and the hypotheses of C15_fail_rejects are met by a history with
